@@ -169,6 +169,8 @@ def classify(out, spec, ref):
     out.label('style-' + spec['style'])
     if any(spec.get('own') or []):
         out.label('package-with-own-factory')
+    if any(a.get('twin') is not None for a in spec['algs']):
+        out.label('same-class-name-in-two-modules')
     if any(spec.get('ignore_flag') or []):
         out.label('package-says-ignore-false')
     if spec.get('base_depth', 1) > 1:
@@ -211,6 +213,7 @@ def parts(tier):
         core.Part('layout', execute,
                   strategy=engines.specs(
                       events=True, own=True, dotted=True, flags=True,
+                      twins=True,
                       styles=('legacy', 'registry', 'registry')),
                   cases=1500 if q else 40000, batch=250),
     ]
